@@ -32,6 +32,7 @@ import (
 
 	"github.com/99designs/gqlgen/graphql"
 	"github.com/99designs/gqlgen/graphql/handler"
+	"github.com/99designs/gqlgen/graphql/handler/apollofederatedtracingv1"
 	"github.com/99designs/gqlgen/graphql/handler/extension"
 	"github.com/99designs/gqlgen/graphql/handler/lru"
 	"github.com/99designs/gqlgen/graphql/handler/transport"
@@ -294,7 +295,7 @@ func Run(rc *core.RunCtx) {
 		return fmt.Errorf("recovered:%v", err)
 	})
 
-	fault := []string{"none", "truncate-eof", "truncate-err", "rechunk", "content-length", "corrupt", "json-prefix", "invalid-doc", "opname", "after-wrong-shape", "upgrade-header"}[t.Choose(11, "fault")]
+	fault := []string{"none", "truncate-eof", "truncate-err", "rechunk", "content-length", "corrupt", "json-prefix", "invalid-doc", "opname", "after-wrong-shape", "upgrade-header", "headers-member"}[t.Choose(12, "fault")]
 	// a document cache, as handler.NewDefaultServer configures one
 	if t.Bool(1, 2, "query-cache") {
 		srv.SetQueryCache(lru.New[*ast.QueryDocument](4))
@@ -320,6 +321,25 @@ func Run(rc *core.RunCtx) {
 			ops = []map[string]any{{}, {"variables": map[string]any{}}, {"operationName": "Q"}, {"extensions": map[string]any{}}}[t.Choose(4, "empty-shape")]
 			noQuery = true
 			faultDesc = "no query, after a wrong-shape body"
+		}
+	}
+	if fault == "headers-member" {
+		// RawParams has a member tagged "headers": a JSON body can carry one. With an extension
+		// that reads request headers (Apollo federated tracing) whatever shape it has must not
+		// crash the server.
+		if ops == nil || (kind != "post" && kind != "sse" && kind != "mmixed") {
+			fault = "none"
+		} else {
+			srv.Use(&apollofederatedtracingv1.Tracer{})
+			ops["headers"] = []any{
+				map[string]any{"Apollo-Federation-Include-Trace": []any{}},
+				map[string]any{"Apollo-Federation-Include-Trace": nil},
+				map[string]any{"Apollo-Federation-Include-Trace": []any{"ftv1"}},
+				map[string]any{"apollo-federation-include-trace": []any{"ftv1", "x"}},
+				map[string]any{"X": "not-a-list"},
+				"not-an-object", nil, []any{1},
+			}[t.Choose(8, "headers-shape")]
+			faultDesc = fmt.Sprintf("headers member %v", ops["headers"])
 		}
 	}
 	if fault == "opname" {
@@ -438,7 +458,7 @@ func Run(rc *core.RunCtx) {
 			sort.Strings(keys)
 			k := keys[t.Choose(len(keys), "map-key")]
 			i := t.Choose(len(m[k]), "map-path")
-			rewrites := []string{"variables.nope", "variables.files.5", "variables.files.-1", "variables.file.0", "variables.in.files.x", "file", "variables.", "variables.in.tag.x", "variables.in.nested.nested.file", "variables.files", "variables.in"}
+			rewrites := []string{"variables.files.18446744073709551615", "variables.files.9223372036854775808", "variables.files.4294967296", "variables.in.files.18446744073709551615", "variables.files.0x1", "variables.files. 1", "variables.nope", "variables.files.5", "variables.files.-1", "variables.file.0", "variables.in.files.x", "file", "variables.", "variables.in.tag.x", "variables.in.nested.nested.file", "variables.files", "variables.in"}
 			m[k][i] = rewrites[t.Choose(len(rewrites), "map-to")]
 			faultDesc += " map[" + k + "]=" + m[k][i]
 			wellFormed = false
